@@ -1,6 +1,132 @@
-(* Props/C01.v — property theorems only (placeholder until the proofs land). *)
-Require Import IP.Base.Bytes IP.DM.Value IP.Node.Basic.
+(* Props/C01.v — "what is built through the builder API is exactly what the node API reads back".
+   Property theorems only; each is closed by [exact] of a lemma proved in coq/Proofs/Node*.v.
+   The model: coq/Node/Basic.v; the legal scripts: coq/Node/Protocol.v ([Scripts]). *)
+Require Import IP.Base.Bytes IP.DM.Value IP.Node.Basic IP.Node.Protocol
+  IP.Proofs.NodeBuild IP.Proofs.NodeRoot IP.Proofs.NodeRead IP.Proofs.NodeEq IP.Proofs.NodeSeg.
 
-Theorem C01_placeholder : forall n, kind_of n = kind_of n.
-Proof. reflexivity. Qed.
-Print Assumptions C01_placeholder.
+(* Every legal way to assemble v (entry shortcut or key+value, key as string or as a node, scalar
+   assignment or AssignNode of a well-formed node of any implementation, any size hint), in a builder
+   of any prototype that can hold v, builds a node whose abstract value is v — kinds, scalars, list
+   order, map entries in insertion order — and the node satisfies the invariant behind
+   C01_views_agree.  For all quirk settings; on the pinned tree [Scripts] leaves out exactly
+   "Prototype.Map + AssignNode of a non-empty map of another implementation" (pmap_takes). *)
+Theorem C01_build_read : forall q p v ops,
+  Scripts q p v ops -> exists n, run q p ops = Some n /\ abs n = v /\ wf n.
+Proof. exact build_read. Qed.
+Print Assumptions C01_build_read.
+
+Theorem C01_hint_independent : forall q s h h',
+  step q s (BeginMap h) = step q s (BeginMap h') /\ step q s (BeginList h) = step q s (BeginList h').
+Proof. exact hint_irrelevant. Qed.
+Print Assumptions C01_hint_independent.
+
+(* the full statement: also the scripts the repaired code admits run on the pinned code *)
+Definition C01_build_read_full : Prop := forall p v ops,
+  Scripts repaired p v ops -> exists n, run pinned p ops = Some n /\ abs n = v.
+
+Theorem C01_build_read_refuted : ~ C01_build_read_full.
+Proof.
+  intros H. destruct pmap_foreign_refuted as (n & _ & Hs & Hr).
+  destruct (H PMap (abs n) [AssignNode n] Hs) as (n' & Hn & _). congruence.
+Qed.
+Print Assumptions C01_build_read_refuted.
+
+(* On every well-formed node (hence every built node): the length is the number of iterated entries,
+   iteration yields every entry once in table order and then an over-read error, LookupByString k is
+   the (only) entry with key k or not-exists, LookupByNode and LookupBySegment agree with it,
+   LookupByIndex on a list is the i-th iterated element, and index/segment forms agree. *)
+Theorem C01_views_agree_map : forall n, wf n -> kind_of n = KMap ->
+  length_of n = Z.of_nat (length (entries_of n)) /\
+  (exists es, map_entries n = Some es /\ iterate es = (es, Some EOverread) /\
+              es = map (fun kv => (NString (fst kv), snd kv)) (entries_of n)) /\
+  NoDup (map fst (entries_of n)) /\
+  (forall k, lookup_by_string n k = look n k) /\
+  (forall k v, In (k, v) (entries_of n) -> lookup_by_string n k = Ok v) /\
+  (forall k, lookup_by_node n (NString k) = lookup_by_string n k) /\
+  (forall kn e, as_string kn = Err e -> lookup_by_node n kn = Err e) /\
+  (forall sg, lookup_by_segment n sg = lookup_by_string n (seg_string sg)) /\
+  (forall i, lookup_by_index n i = Err EWrongKind).
+Proof. exact map_views. Qed.
+Print Assumptions C01_views_agree_map.
+
+Theorem C01_views_agree_list : forall n, kind_of n = KList ->
+  length_of n = Z.of_nat (length (items_of n)) /\
+  (exists xs, list_entries n = Some xs /\ iterate xs = (xs, Some EOverread) /\ xs = items_of n) /\
+  (forall i, lookup_by_index n i = at_index n i) /\
+  (forall sg, lookup_by_segment n sg =
+              match seg_index sg with Some i => lookup_by_index n i | None => Err EInvalidSegment end) /\
+  (forall i, (0 <= i)%Z -> lookup_by_segment n (seg_of_int i) = lookup_by_index n i) /\
+  (forall s i, parse_int s = Some i -> lookup_by_segment n (seg_of_string s) = lookup_by_index n i) /\
+  (forall k, lookup_by_string n k = Err EWrongKind).
+Proof. exact list_views. Qed.
+Print Assumptions C01_views_agree_list.
+
+(* strconv.ParseInt (FormatInt i) = i on int64 as modelled, hence on a list the segment forms
+   PathSegmentOfInt(i) and PathSegmentOfString("<decimal i>") address the same element as LookupByIndex *)
+Theorem C01_segment_forms_agree : forall n i,
+  kind_of n = KList -> (0 <= i < two63z)%Z ->
+  lookup_by_segment n (seg_of_string (format_int i)) = lookup_by_segment n (seg_of_int i) /\
+  lookup_by_segment n (seg_of_int i) = lookup_by_index n i.
+Proof. exact segment_forms_agree. Qed.
+Print Assumptions C01_segment_forms_agree.
+
+(* every kind-inappropriate accessor / lookup / iterator answers wrong-kind (an error value); the
+   result type of these functions has no panic outcome at all *)
+Theorem C01_wrong_kind : forall n,
+  (kind_of n <> KBool -> as_bool n = Err EWrongKind) /\
+  (kind_of n <> KInt -> as_int n = Err EWrongKind) /\
+  (kind_of n <> KFloat -> as_float n = Err EWrongKind) /\
+  (kind_of n <> KString -> as_string n = Err EWrongKind) /\
+  (kind_of n <> KBytes -> as_bytes n = Err EWrongKind) /\
+  (kind_of n <> KLink -> as_link n = Err EWrongKind) /\
+  (kind_of n <> KMap -> forall k, lookup_by_string n k = Err EWrongKind) /\
+  (kind_of n <> KList -> forall i, lookup_by_index n i = Err EWrongKind) /\
+  (kind_of n <> KMap -> kind_of n <> KList ->
+     (forall k, lookup_by_node n k = Err EWrongKind) /\
+     (forall sg, lookup_by_segment n sg = Err EWrongKind)) /\
+  (kind_of n <> KMap -> map_entries n = None) /\
+  (kind_of n <> KList -> list_entries n = None) /\
+  (kind_of n <> KMap -> kind_of n <> KList -> length_of n = (-1)%Z).
+Proof. exact wrong_kind_table. Qed.
+Print Assumptions C01_wrong_kind.
+
+(* DeepEqual is Go-equality of the abstract values (float ==: NaN differs from itself, +0 = -0; maps
+   in iteration order), across implementations; Copy reproduces the abstract value.  Proved for
+   every quirk setting under [eq_total]: the repaired tree, or no int above MaxInt64 involved. *)
+Theorem C01_equal_copy_partial : forall q,
+  (forall x y, eq_total q x y -> deep_equal q x y = ROk (dm_goeq (abs x) (abs y))) /\
+  (forall n, wf n -> (q_copy_asint q = false \/ forall z, n = NUint z -> (z < two63z)%Z) ->
+     exists n', copy q PAny n = ROk n' /\ abs n' = abs n /\ wf n') /\
+  (forall n, wf n -> kind_of n = KMap -> exists n', copy q PMap n = ROk n' /\ abs n' = abs n /\ wf n') /\
+  (forall n, wf n -> kind_of n = KList -> exists n', copy q PList n = ROk n' /\ abs n' = abs n /\ wf n').
+Proof.
+  intros q. split; [|split; [|split]].
+  - intros x y. exact (deep_equal_spec q x y).
+  - exact (copy_any q).
+  - exact (copy_map q).
+  - exact (copy_list q).
+Qed.
+Print Assumptions C01_equal_copy_partial.
+
+Definition C01_equal_copy_full : Prop :=
+  (forall x y, wf x -> wf y -> deep_equal pinned x y = ROk (dm_goeq (abs x) (abs y))) /\
+  (forall n, wf n -> exists n', copy pinned PAny n = ROk n' /\ abs n' = abs n).
+
+(* the full statement holds of the repaired model ... *)
+Theorem C01_equal_copy_repaired :
+  (forall x y, deep_equal repaired x y = ROk (dm_goeq (abs x) (abs y))) /\
+  (forall n, wf n -> exists n', copy repaired PAny n = ROk n' /\ abs n' = abs n /\ wf n').
+Proof.
+  split.
+  - intros x y. apply deep_equal_spec. left. reflexivity.
+  - intros n Hw. apply copy_any; auto.
+Qed.
+Print Assumptions C01_equal_copy_repaired.
+
+(* ... and fails on the pinned one (ints above MaxInt64: DeepEqual panics, Copy fails) *)
+Theorem C01_equal_copy_refuted : ~ C01_equal_copy_full.
+Proof.
+  intros [H _]. destruct deep_equal_uint_refuted as (n & Hw & Hp).
+  rewrite (H n n Hw Hw) in Hp. discriminate.
+Qed.
+Print Assumptions C01_equal_copy_refuted.
